@@ -109,9 +109,20 @@ def run(ctx):
 
     # B: identifier map, scope count, nil Types key
     impl_maps, model_maps, names, skipped = [], [], [], []
+    gen_rejected = {}    # generated originals that go/types rejects: generator bugs, dropped and counted, never a violation
+    for c, l in zip(cases, lines):
+        f = l.split("\t")
+        if len(f) > 3 and f[3].startswith("GO go") and c[4] in ("random", "gorich"):
+            gen_rejected[c[0]] = f[3][:200]
+    if gen_rejected:
+        ctx.log("GENERATOR-BUG: %d generated program(s) rejected by go/types and dropped: %s" % (len(gen_rejected), list(gen_rejected.items())[:3]))
+        if os.environ.get("VERIF_DEV"):
+            raise RuntimeError("generator produced invalid Go: %s" % list(gen_rejected.items())[:3])
     for (i, c), ml in zip(mcases, mlines):
         f = lines[i].split("\t")
         mp = f[1][4:] if len(f) > 1 else "?"
+        if c[0] in gen_rejected:
+            continue
         if mp.split(" ")[0] in ("PARSEERR", "CHECKERR", "PANIC") or (len(f) > 3 and f[3].startswith("GO go")):
             skipped.append((c[0], (f[2] + " " + f[3])[:300]))
             continue
@@ -120,8 +131,8 @@ def run(ctx):
         names.append(c[0] + "\n" + c[2])
     ctx.diff_lines("info_map~typesutil.Info", names, "\n".join(impl_maps), "\n".join(model_maps))
     if len(skipped) * 20 > len(mcases):
-        ctx.broken("correspondence(c12:generator-validity)",
-                   "%d of %d generated programs rejected by the checker / go/types; first: %s" % (len(skipped), len(mcases), skipped[0]))
+        ctx.broken("correspondence(c12:checker-rejects-valid-go)",
+                   "%d of %d generated programs that go/types accepts are rejected by typesutil.Checker; first: %s" % (len(skipped), len(mcases), skipped[0]))
 
     # C: the invariants on the real Info, and the comparison with go/types
     nfail, nprog_ok, hist = 0, 0, {}
@@ -132,6 +143,13 @@ def run(ctx):
             ctx.broken("correspondence(c12:impl-line)", l[:300])
             continue
         name, kind, src = c[0], c[1], c[2]
+        if name in gen_rejected:
+            hist["generator-rejected"] = hist.get("generator-rejected", 0) + 1
+            continue
+        if len(f) > 3 and f[3].startswith("GO go"):
+            # a handwritten Go text that go/types rejects: a bug of the check, not of /repo
+            ctx.broken("check-machinery(c12:handwritten-text)", "%s: %s" % (name, f[3][:300]))
+            continue
         if f[1].split(" ")[1:2] and f[1].split(" ")[1] in ("PARSEERR", "CHECKERR"):
             hist["skipped:" + c[4]] = hist.get("skipped:" + c[4], 0) + 1
             continue
@@ -168,6 +186,7 @@ def run(ctx):
               origin_histogram=hist, construct_histogram=dict(sorted(shape.items())),
               declaring_construct_histogram=dict(sorted(dhist.items())),
               model_vs_impl_compared=len(impl_maps), generated_rejected=len(skipped),
+              generator_rejected=len(gen_rejected), generator_rejected_samples=dict(list(gen_rejected.items())[:5]),
               programs_without_any_failure=nprog_ok, oracle_failing_items=nfail)
     ctx.assume("object positions/kinds of MiniScope follow cl's call sites as read (loadVars, loadConsts, compileAssignStmt, "
                "compileRangeStmt, compileForPhraseStmt, compileType, loadFunc, compileFuncLit, recordCompositeLit); "
